@@ -227,4 +227,83 @@ example : realDequeOutcome = some ([],
 example : (((model dequeObj ⟨2, 0, 1⟩).run (init dequeObj ⟨2, 0, 1⟩) realDequeRun).map
     (fun r => linCheck deque (historyOf r.2))) = some true := by decide +kernel
 
+/-! ### Concrete runs of the queue and the stack instances (the hypotheses of `C06_fcqueue_linearizable` /
+    `C09_fcstack_linearizable` are satisfiable by a run with a combiner serving ANOTHER thread and a failing operation) -/
+
+/-- Two threads, three operations (kernel configuration ⟨2, 0, 1⟩ as above).  Thread 0 invokes `a`, thread 1 invokes `b`
+    while `a` is pending; thread 0 becomes the combiner and executes BOTH requests (r1 before r0: list order); thread 0
+    then invokes `c` and runs alone (it is the combiner of its own request). -/
+def twoThreadRun (a b c : GOp) : List (Tid × Act) :=
+  [(0, .invoke a)] ++ st 0 2 ++ [(1, .invoke b)] ++ st 1 2 ++ st 0 6 ++ st 1 3 ++ st 0 23 ++ st 1 1 ++ st 0 2 ++
+  [(0, .ret)] ++ [(0, .invoke c)] ++ st 1 2 ++ [(1, .ret)] ++ st 0 32 ++ [(0, .ret)]
+
+/-- Final container, the `exec` events (executing thread, record, result) and the history of a run. -/
+def outcomeOf (O : Obj (List Int)) (sched : List (Tid × Act)) :
+    Option (List Int × List (Tid × String × String) × List (Nat × String × GRet × Nat × Nat)) :=
+  ((model O ⟨2, 0, 1⟩).run (init O ⟨2, 0, 1⟩) sched).map
+    (fun r => (r.1.obj,
+      r.2.filterMap (fun x => match x.2 with
+        | .ev e => if e.kind = "exec" then some (x.1, e.loc, e.a) else none
+        | _ => none),
+      (historyOf r.2).map (fun o => (o.tid, o.op.name, o.ret, o.inv, o.res))))
+
+def queueRun : List (Tid × Act) := twoThreadRun ⟨"deq", []⟩ ⟨"enq", [200]⟩ ⟨"deq", []⟩
+def stackRun : List (Tid × Act) := twoThreadRun ⟨"pop", []⟩ ⟨"push", [200]⟩ ⟨"pop", []⟩
+
+set_option synthInstance.maxSize 4000 in
+/-- FCQueue: thread 0's `deq`, invoked FIRST, returns the 200 that thread 1 enqueued while it was pending: thread 0, the
+    combiner, executes thread 1's `enq` (`exec r1`, by thread 0) before its own request; thread 0's second `deq` finds the
+    queue empty and fails. -/
+example : outcomeOf queueObj queueRun = some ([],
+    [(0, "r1", "1"), (0, "r0", "1,200"), (0, "r0", "0")],
+    [(0, "deq", [1, 200], 0, 41), (1, "enq", [1], 3, 45), (0, "deq", [0], 42, 78)]) := by
+  decide +kernel
+
+/-- The verified checker accepts the history of that run (and it is not trivially satisfied: the same history with a
+    `deq` that returned 201, a value nobody enqueued, is rejected). -/
+example : (((model queueObj ⟨2, 0, 1⟩).run (init queueObj ⟨2, 0, 1⟩) queueRun).map
+    (fun r => linCheck fifo (historyOf r.2))) = some true ∧
+    linCheck fifo [⟨0, ⟨"deq", []⟩, [1, 201], 0, 41⟩, ⟨1, ⟨"enq", [200]⟩, [1], 3, 45⟩, ⟨0, ⟨"deq", []⟩, [0], 42, 78⟩] = false := by
+  decide +kernel
+
+/-- `C06_fcqueue_linearizable` applied to that run: no hypothesis is left. -/
+example : ∃ s os, (model queueObj ⟨2, 0, 1⟩).run (init queueObj ⟨2, 0, 1⟩) queueRun = some (s, os) ∧
+    ∃ extra : List (OpRec GOp GRet),
+      (∀ e ∈ extra, pendingOf os e.tid = some (e.op, e.inv) ∧ e.res = os.length ∧
+          lin s.k e.tid = true ∧ e.ret = s.resg e.tid) ∧
+      extra.Pairwise (fun a b => a.tid ≠ b.tid) ∧
+      Linearizable fifo (historyOf os ++ extra) := by
+  have h : ((model queueObj ⟨2, 0, 1⟩).run (init queueObj ⟨2, 0, 1⟩) queueRun).isSome = true := by decide +kernel
+  obtain ⟨⟨s, os⟩, hr⟩ := Option.isSome_iff_exists.mp h
+  exact ⟨s, os, hr, C06_fcqueue_linearizable _ _ s os hr⟩
+
+set_option synthInstance.maxSize 4000 in
+/-- FCStack: the same schedule; thread 0's `pop`, invoked first, returns the 200 pushed by thread 1 (executed by the
+    combiner, thread 0); the second `pop` fails on the empty stack. -/
+example : outcomeOf stackObj stackRun = some ([],
+    [(0, "r1", "1"), (0, "r0", "1,200"), (0, "r0", "0")],
+    [(0, "pop", [1, 200], 0, 41), (1, "push", [1], 3, 45), (0, "pop", [0], 42, 78)]) := by
+  decide +kernel
+
+example : (((model stackObj ⟨2, 0, 1⟩).run (init stackObj ⟨2, 0, 1⟩) stackRun).map
+    (fun r => linCheck lifo (historyOf r.2))) = some true := by decide +kernel
+
+/-- `C09_fcstack_linearizable` applied to that run. -/
+example : ∃ s os, (model stackObj ⟨2, 0, 1⟩).run (init stackObj ⟨2, 0, 1⟩) stackRun = some (s, os) ∧
+    ∃ extra : List (OpRec GOp GRet),
+      (∀ e ∈ extra, pendingOf os e.tid = some (e.op, e.inv) ∧ e.res = os.length ∧
+          lin s.k e.tid = true ∧ e.ret = s.resg e.tid) ∧
+      extra.Pairwise (fun a b => a.tid ≠ b.tid) ∧
+      Linearizable lifo (historyOf os ++ extra) := by
+  have h : ((model stackObj ⟨2, 0, 1⟩).run (init stackObj ⟨2, 0, 1⟩) stackRun).isSome = true := by decide +kernel
+  obtain ⟨⟨s, os⟩, hr⟩ := Option.isSome_iff_exists.mp h
+  exact ⟨s, os, hr, C09_fcstack_linearizable _ _ s os hr⟩
+
+set_option synthInstance.maxSize 4000 in
+/-- A run that stops while thread 1's `enq` has been executed by the combiner but has not returned: the `extra` of the
+    theorem is not empty in general (`lin` holds of thread 1, `historyOf` has only thread 0's `deq`). -/
+example : (((model queueObj ⟨2, 0, 1⟩).run (init queueObj ⟨2, 0, 1⟩) (queueRun.take 45)).map
+    (fun r => (lin r.1.k 1, r.1.resg 1, (historyOf r.2).map (fun o => (o.tid, o.op.name, o.ret)), pendingOf r.2 1))) =
+    some (true, [1], [(0, "deq", [1, 200])], some (⟨"enq", [200]⟩, 3)) := by decide +kernel
+
 end CdsVerif.Props.C10FCLin
